@@ -338,4 +338,191 @@ theorem inv_enter (g : Graph) (s : State) (next w : Nat) (hH : Homog g) (hI : In
   · intro i
     exact Nat.le_of_eq (nd_setNd_proj (·.bump) s next (fun d => { d with started := some w }) (fun _ => rfl) i).symm
 
+/-! ## the helpers of the loop only remove marks -/
+
+theorem le_pullLocations (g : Graph) (s : State) (n : Nat) : Le s (pullLocations g s n) := by
+  unfold pullLocations
+  split
+  · exact Le.refl s
+  · apply Le.foldl
+    rintro s ⟨p, vms⟩
+    apply Le.foldl
+    intro s loc
+    apply Le.foldl
+    intro s vm
+    exact Le.setNd s n _ (fun d => ⟨Or.inl rfl, Nat.le_refl _⟩)
+
+theorem le_disableRerun (s : State) (n : Nat) : Le s (disableRerun s n) :=
+  Le.setNd s n _ (fun _ => ⟨Or.inl rfl, Nat.le_refl _⟩)
+
+theorem le_runDecision (g : Graph) (s : State) (n w : Nat) (b : Bool) (s1 : State) (e1 : List Event)
+    (h : runDecision g s n w = .ok (b, s1, e1)) : Le s s1 := by
+  rcases runDecision_state g s n w b s1 e1 h with h | h
+  · rw [h]; exact Le.refl s
+  · rw [h]; exact le_disableRerun s n
+
+theorem le_syncStates (g : Graph) (s : State) (n w : Nat) (r : Option (List String)) : Le s (syncStates g s n w r).1 := by
+  unfold syncStates
+  dsimp only
+  split
+  · exact Le.refl s
+  · split <;> exact Le.of_nd_eq (fun _ => rfl)
+
+theorem le_produce (g : Graph) (s : State) (n w : Nat) : Le s (produce g s n w) := Le.of_nd_eq (fun _ => rfl)
+
+theorem le_finishTraverse (s : State) (n w : Nat) : Le s (finishTraverse s n w) :=
+  Le.setNd s n _ (fun _ => ⟨Or.inr rfl, Nat.le_refl _⟩)
+
+theorem le_startTest (g : Graph) (s : State) (n w : Nat) (ph : Phase) (dir : Dir) : Le s (startTest g s n w ph dir).1 := by
+  unfold startTest
+  dsimp only
+  split
+  · exact Le.of_nd_eq (fun _ => rfl)
+  · refine Le.trans (s' := { s with nextTag := s.nextTag + 1 }) (Le.of_nd_eq (fun _ => rfl)) ?_
+    refine Le.trans (Le.setNd _ n (fun d => { d with results := d.results ++
+      [{ name := (g.node n).name, status := "UNKNOWN", uid := "", tag := s.nextTag }] })
+      (fun _ => ⟨Or.inl rfl, Nat.le_refl _⟩)) ?_
+    exact Le.of_nd_eq (fun _ => rfl)
+
+theorem le_pickChild (g : Graph) (s : State) (n w c : Nat) (s' : State) (h : pickChild g s n w = some (c, s')) : Le s s' :=
+  Le.of_nd_eq (started_pickChild g s n w c s' h)
+
+theorem le_pickParent (g : Graph) (s : State) (n w p : Nat) (s' : State) (h : pickParent g s n w = some (p, s')) : Le s s' :=
+  Le.of_nd_eq (started_pickParent g s n w p s' h)
+
+theorem le_setWd (s : State) (w : Nat) (f : WorkerD → WorkerD) : Le s (s.setWd w f) := Le.of_nd_eq (fun _ => rfl)
+
+/-! ## the functions of the loop preserve the invariant -/
+
+theorem inv_reverseNode (g : Graph) (s : State) (n w : Nat) (s' : State) (evs : List Event) (hH : Homog g) (hI : Inv g s)
+    (h : reverseNode g s n w = .ok (s', evs)) : Inv g s' := by
+  unfold reverseNode at h
+  by_cases hocc : isOccupied g s n w = true
+  · simp only [hocc, if_true, Except.ok.injEq, Prod.mk.injEq] at h
+    rw [← h.1]; exact hI
+  · have hocc' : isOccupied g s n w = false := by simpa using hocc
+    have hI1 := inv_enter g s n w hH hI hocc'
+    simp only [hocc, Bool.false_eq_true, if_false, ite_self] at h
+    split at h
+    · cases h
+    · next clean hcd =>
+      by_cases hc : (clean && !(g.node n).sets.isEmpty) = true
+      · simp only [hc, if_true, Except.ok.injEq, Prod.mk.injEq] at h
+        rw [← h.1]
+        exact inv_le g _ _ hI1 ((le_syncStates g _ n w none).trans (Le.setNd _ n _ (fun _ => ⟨Or.inr rfl, Nat.le_refl _⟩)))
+      · simp only [hc, Bool.false_eq_true, if_false, Except.ok.injEq, Prod.mk.injEq] at h
+        rw [← h.1]
+        exact inv_le g _ _ hI1 (Le.setNd _ n _ (fun _ => ⟨Or.inr rfl, Nat.le_refl _⟩))
+
+theorem inv_afterTraverse (g : Graph) (s : State) (w next prev : Nat) (dir : Dir) (hH : Homog g) (hI : Inv g s) :
+    Inv g (afterTraverse g s w next prev dir).1 := by
+  unfold afterTraverse
+  cases hrd : runDecision g s next w with
+  | error e => exact hI
+  | ok r =>
+    obtain ⟨run, s1, evs⟩ := r
+    have hI1 : Inv g s1 := inv_le g s s1 hI (le_runDecision g s next w run s1 evs hrd)
+    cases dir with
+    | up =>
+      dsimp only
+      apply inv_le g s1 _ hI1
+      apply Le.of_nd_eq
+      intro i
+      cases run <;> rfl
+    | down =>
+      dsimp only
+      by_cases hrun : run = true
+      · simp only [hrun, if_true]
+        exact inv_le g s1 _ hI1 (le_setWd _ _ _)
+      · simp only [hrun, Bool.false_eq_true, if_false]
+        by_cases hc : isCleanupReady g s1 next w = true
+        · simp only [hc, if_true]
+          have hI2 : Inv g ((g.node next).setup.foldl (fun s x => dropChild g s x.1 next w) s1) :=
+            inv_le g s1 _ hI1 (Le.foldl (fun s (x : Nat × List String) => dropChild g s x.1 next w)
+              (fun _ _ => Le.of_nd_eq (fun _ => rfl)) _ _)
+          split
+          · exact hI2
+          · next s3 e3 hrev =>
+            exact inv_le g s3 _ (inv_reverseNode g _ next w s3 e3 hH hI2 hrev) (le_setWd _ _ _)
+        · simp only [hc, Bool.false_eq_true, if_false]
+          split
+          · exact hI1
+          · next c s3 hp =>
+            exact inv_le g s1 _ hI1 ((le_pickChild g s1 next w c s3 hp).trans (le_setWd _ _ _))
+
+theorem inv_startTest (g : Graph) (s : State) (n w : Nat) (ph : Phase) (dir : Dir) (hI : Inv g s) :
+    Inv g (startTest g s n w ph dir).1 := inv_le g s _ hI (le_startTest g s n w ph dir)
+
+theorem inv_traverseNode (g : Graph) (s : State) (w next prev : Nat) (dir : Dir) (hH : Homog g) (hI : Inv g s) :
+    Inv g (traverseNode g s w next prev dir).1 := by
+  unfold traverseNode
+  by_cases hocc : isOccupied g s next w = true
+  · simp only [hocc, if_true]
+    exact inv_afterTraverse g s w next prev dir hH hI
+  · have hocc' : isOccupied g s next w = false := by simpa using hocc
+    have hI1 := inv_enter g s next w hH hI hocc'
+    have hI2 := inv_le g _ _ hI1 (le_pullLocations g (s.setNd next (fun d => { d with started := some w })) next)
+    simp only [hocc, Bool.false_eq_true, if_false]
+    split
+    · exact hI2
+    · next run s1 evs hrd =>
+      have hI3 : Inv g s1 := inv_le g _ s1 hI2 (le_runDecision g _ next w run s1 evs hrd)
+      split
+      · split
+        · exact inv_startTest g _ next w .pre dir (inv_le g s1 _ hI3 (le_setWd s1 w _))
+        · exact inv_startTest g s1 next w .plain dir hI3
+      · exact inv_afterTraverse g (finishTraverse s1 next w) w next prev dir hH (inv_le g s1 _ hI3 (le_finishTraverse s1 next w))
+
+theorem inv_iter (g : Graph) (s : State) (w : Nat) (hH : Homog g) (hI : Inv g s) : Inv g (iter g s w).1 := by
+  unfold iter
+  dsimp only
+  split
+  · split
+    · exact inv_le g s _ hI (le_setWd _ _ _)
+    · exact hI
+  · split
+    · exact hI
+    · next nxt hlast =>
+      split
+      · split
+        · exact hI
+        · next c s1 hp => exact inv_le g s _ hI ((le_pickChild g s nxt w c s1 hp).trans (le_setWd _ _ _))
+      · split
+        · -- the bounce: the only place where `bump` is written
+          apply inv_le g s _ hI
+          refine Le.trans ?_ (le_setWd _ _ _)
+          split
+          · refine Le.trans ?_ (le_setWd _ _ _)
+            split
+            · exact Le.setNd _ _ _ (fun d => ⟨Or.inl rfl, Nat.le_succ _⟩)
+            · exact Le.refl _
+          · exact le_setWd _ _ _
+        · split
+          · split
+            · exact inv_traverseNode g s w nxt _ .up hH hI
+            · split
+              · exact hI
+              · next p s1 hp => exact inv_le g s _ hI ((le_pickParent g s nxt w p s1 hp).trans (le_setWd _ _ _))
+          · split
+            · split
+              · split
+                · exact hI
+                · next p s1 hp => exact inv_le g s _ hI ((le_pickParent g s nxt w p s1 hp).trans (le_setWd _ _ _))
+              · exact inv_traverseNode g s w nxt _ .down hH hI
+            · exact hI
+
+theorem inv_runLoop (g : Graph) (w : Nat) (hH : Homog g) (fuel : Nat) (s : State) (evs : List Event) (hI : Inv g s) :
+    Inv g (runLoop g w fuel s evs).1 := by
+  induction fuel generalizing s evs with
+  | zero => exact hI
+  | succ fuel ih =>
+    unfold runLoop
+    dsimp only
+    have hI1 := inv_iter g _ w hH (inv_le g s _ hI (le_setWd s w (fun d => { d with pc := .loop })))
+    split
+    · next s1 e heq => rw [heq] at hI1; exact ih s1 _ hI1
+    · next s1 e heq => rw [heq] at hI1; exact hI1
+    · next s1 e heq => rw [heq] at hI1; exact hI1
+    · next s1 e what heq => rw [heq] at hI1; exact inv_le g s1 _ hI1 (le_setWd _ _ _)
+
 end I2N.Trav
